@@ -620,4 +620,28 @@ theorem monitor_accepts_model_sess (sc : Scenario) (hs : sc.sess = true) (env : 
     · simp only [hr, if_true, liveClause_model]; simp
     · simp only [hr, if_false, deadline_accepts, liveClause_model]; simp
 
+/-! ## The two hypotheses of the `sessions` bridge are needed, and satisfiable -/
+
+section witnesses
+private def wsc (scripts : List Script) : Scenario :=
+  { real := false, I := 1000, t0 := 1, scripts := scripts, tc := 5750, sess := true, at2 := 6000 }
+private def wenv (shut : Option Nat) : Option SessObs :=
+  some { warn := [], shut := shut, live1 := .unsampled, live2 := .no, liveOk := true, liveRaw := "", wblk := none }
+
+/-- An observed ping that lasted longer than half an interval without its write being blocked is
+reported whatever the loop did: `longClause` judges the given pattern. -/
+theorem long_hypothesis_needed :
+    monitor (wsc [{ kind := .answer, delay := some 600 }]) (modelObs (wsc [{ kind := .answer, delay := some 600 }]) (wenv none)) =
+      some (.pingLong 0 600 1000) := by decide
+
+/-- When the model closes the session and the transport never closed the connection, the monitor
+reports it: `shutClause` judges what the transport did. -/
+theorem shut_hypothesis_needed :
+    monitor (wsc [{ kind := .answer, delay := none }]) (modelObs (wsc [{ kind := .answer, delay := none }]) (wenv none)) =
+      some (.shutNever 1500) := by decide
+
+example : monitor (wsc [{ kind := .answer, delay := none }]) (modelObs (wsc [{ kind := .answer, delay := none }]) (wenv (some 1500))) = none :=
+  monitor_accepts_model_sess _ rfl _ (by decide) (by decide)
+end witnesses
+
 end KeepAlive
